@@ -13,6 +13,12 @@ it on the input and compares: set of changed coordinates (incl. the padding of 1
 sign of y_i - r for every line (so strictness), equality with the input when feasible; the per-line
 solver functions are also applied one at a time and after every step each line that held must still
 hold.  Bounds: boundsconstrain(lo, hi) (symbolic and impose_bounds paths) against Clip.
+Several relations on the SAME left-hand variable (specs/sym/LinRelGrp.tla, runs grp2 / grp3 / grpmix): the
+spec gives the JOINT result per left-hand variable (GrpResult) and emits, per group, the allowed tuples of
+signs (y_i - r[k]) over the lines of the group; an empty set = the group is contradictory at that point
+(outside the premise: counted, not judged, mystic is not even required to return).  The replayed path is
+generate_constraint(generate_solvers(text)) on the isolated-form text itself, as for the other runs (NOT
+through simplify(), whose merge() rewrites 'A >= c, A <= c' to 'A = c' and rejects 'A > c, A < c').
 Nothing about the expected outcome is computed in Python: the harness compares floats with the
 integers TLC printed.
 """
@@ -22,21 +28,30 @@ from harness.tlc import TLCError
 from harness import linrel_common as L
 
 RULE = ("TLC enumerates every (system, input point) of the bounded class [relations x_i op rhs, 6 comparators, rhs from "
-        "an affine + nonlinear catalogue; 1, 2 and 3 independent lines; boxes lo<=hi incl. unbounded and degenerate "
+        "an affine + nonlinear catalogue; 1, 2 and 3 independent lines; 2 and 3 lines on the SAME left-hand variable "
+        "(all comparator pairs, same / different right-hand sides, intervals incl. degenerate and empty ones, both "
+        "orders) alone and next to an independent line on another variable; boxes lo<=hi incl. unbounded and degenerate "
         "sides] and emits the allowed observations; every one is replayed on the real generated functions under the "
         "plain scheme and one rotating variable-name scheme / input container (list of float, list of int, ndarray), "
         "degree-one systems additionally at scale 2^40 or 2^60; a case = (run, system, point, scheme); non-trivial = "
-        "the input violates at least one line or lies exactly on a boundary (x_i = rhs) / outside the box; distinct = "
+        "the input violates at least one line or lies exactly on a boundary (x_i = rhs) / outside the box; systems that "
+        "are contradictory at the point (TLC: no admissible outcome) are counted as trivial and not judged; distinct = "
         "by (run, system, point)")
 
 RUNS = {
     "quick": [("single", "sym/MC_LinRel", "MC_LinRel_single_quick.cfg", 4),
               ("pair", "sym/MC_LinRelSys", "MC_LinRelSys_quick.cfg", 4),
               ("triple", "sym/MC_LinRelTri", "MC_LinRelTri_quick.cfg", 4),
+              ("grp2", "sym/MC_LinRelGrp", "MC_LinRelGrp_pair_quick.cfg", 4),
+              ("grp3", "sym/MC_LinRelGrpTri", "MC_LinRelGrpTri_same_quick.cfg", 2),
+              ("grpmix", "sym/MC_LinRelGrpTri", "MC_LinRelGrpTri_mix_quick.cfg", 2),
               ("box", "sym/MC_LinRel", "MC_LinRel_box_quick.cfg", 1)],
     "thorough": [("single", "sym/MC_LinRel", "MC_LinRel_single_thorough.cfg", 16),
                  ("pair", "sym/MC_LinRelSys", "MC_LinRelSys_thorough.cfg", 16),
                  ("triple", "sym/MC_LinRelTri", "MC_LinRelTri_thorough.cfg", 16),
+                 ("grp2", "sym/MC_LinRelGrp", "MC_LinRelGrp_pair_thorough.cfg", 16),
+                 ("grp3", "sym/MC_LinRelGrpTri", "MC_LinRelGrpTri_same_thorough.cfg", 16),
+                 ("grpmix", "sym/MC_LinRelGrpTri", "MC_LinRelGrpTri_mix_thorough.cfg", 16),
                  ("box", "sym/MC_LinRel", "MC_LinRel_box_thorough.cfg", 1)],
 }
 
@@ -88,10 +103,24 @@ def replay_relations(ck, chunk):
     for idx, c in enumerate(cases, start):
         s = c["s"]
         recs = [rels[k - 1] for k in s]
-        x, r, f, g, ch = c["x"], c["r"], c["f"], [set(t) for t in c["g"]], set(c["ch"])
-        if corrupt and idx % 97 == 0:
-            g = [set([-t for t in gg] or [0]) if gg != {0} else {1} for gg in g]     # corrupted expectation
+        x, r, f, ch = c["x"], c["r"], c["f"], set(c["ch"])
+        # groups = [(lines of one left-hand variable (0-based, text order), allowed tuples of signs of y_i - r[k])];
+        # the runs with distinct left-hand variables emit per-line sign sets: groups of one line
+        grouped = "gl" in c
+        if grouped:
+            groups = [([k - 1 for k in ls], set(tuple(t) for t in ts)) for ls, ts in zip(c["gl"], c["gs"])]
+        else:
+            groups = [([k], set((t,) for t in gk)) for k, gk in enumerate(c["g"])]
         ops = "+".join(rc["op"] for rc in recs)
+        if any(not ts for _, ts in groups):
+            # contradictory at this point (TLC: no admissible outcome): outside the premise, not judged
+            ck.case(nontrivial=False, key=(name, tuple(s), tuple(x)))
+            ck.trace()
+            continue
+        if corrupt and idx % 97 == 0:                                                # corrupted expectation
+            groups = [(ls, (set(tuple(-t for t in tp) for tp in ts) if any(any(tp) for tp in ts) else {(1,) * len(ls)}))
+                      for ls, ts in groups]
+        lonely = set(ls[0] for ls, _ in groups if len(ls) == 1)
         deg1 = all(rc["kind"] in ("aff", "abs") for rc in recs)
         boundary = any(x[rc["i"] - 1] == rr for rc, rr in zip(recs, r))
         todo = [(schemes[0], "float"), (schemes[1 + (idx + rot) % (len(schemes) - 1)], kinds[(idx + rot) % 3])]
@@ -110,7 +139,8 @@ def replay_relations(ck, chunk):
             detail = {"run": name, "text": text, "variables": sch.variables, "nvars": sch.dim, "locals": loc,
                       "scheme": sch.name, "input_kind": kind, "spec_point": x, "scale": S,
                       "lhs_positions": [sch.pos[rc["i"] - 1] for rc in recs], "ops": [rc["op"] for rc in recs],
-                      "expected": {"rhs": r, "feasible": f, "allowed_signs": [sorted(t) for t in g], "may_change": sorted(ch)}}
+                      "expected": {"rhs": r, "feasible": f, "may_change": sorted(ch),
+                                   "groups": [{"lines": [k + 1 for k in ls], "allowed_sign_tuples": sorted(ts)} for ls, ts in groups]}}
             kindtag = "+".join(sorted(set(rc["kind"] for rc in recs)))
             try:
                 solv, cons = comp.get(text, sch, loc)
@@ -124,10 +154,16 @@ def replay_relations(ck, chunk):
                 held = [sgn(z[sch.pos[rc["i"] - 1]] - rr * S) in hs[rc["op"]] for rc, rr in zip(recs, r)]
                 lost = None
                 for fsol in reversed(solv):
+                    before = list(z)
                     z = fsol(z)
                     now = [sgn(z[sch.pos[rc["i"] - 1]] - rr * S) in hs[rc["op"]] for rc, rr in zip(recs, r)]
-                    if lost is None and any(h and not w for h, w in zip(held, now)):
-                        lost = [k + 1 for k, (h, w) in enumerate(zip(held, now)) if h and not w]
+                    # a line that held must still hold; the lines of a group of several lines on one variable are
+                    # judged jointly at the end (the steps of that variable may pass through one another's bounds),
+                    # so for them only steps that did not touch their variable count
+                    broke = [k for k, (h, w) in enumerate(zip(held, now)) if h and not w and
+                             (k in lonely or bool(z[sch.pos[recs[k]["i"] - 1]] == before[sch.pos[recs[k]["i"] - 1]]))]
+                    if lost is None and broke:
+                        lost = [k + 1 for k in broke]
                     held = now
                 stepwise_same = all(bool(p == q) for p, q in zip(list(z), list(y))) and len(z) == len(y)
             except Exception as ex:
@@ -151,12 +187,23 @@ def replay_relations(ck, chunk):
                     problems.append(("feasible-input-moved", "input satisfies every line but coordinates %s changed" % sorted(changed)))
                 else:
                     problems.append(("other-coordinate-changed", "coordinates %s changed, only %s may" % (sorted(changed), sorted(ch))))
-            for k, (rc, rr) in enumerate(zip(recs, r)):
-                sg = sgn(yv[rc["i"] - 1] - rr * S)
-                if sg not in g[k]:
-                    what = "not-satisfied" if sg not in hs[rc["op"]] else "feasible-input-moved"
+            for ls, ts in groups:
+                tup = tuple(sgn(yv[recs[k]["i"] - 1] - r[k] * S) for k in ls)
+                if tup in ts:
+                    continue
+                failing = [k for k, sg in zip(ls, tup) if sg not in hs[recs[k]["op"]]]
+                if len(ls) == 1:
+                    k, rc = ls[0], recs[ls[0]]
+                    what = "not-satisfied" if failing else "feasible-input-moved"
                     problems.append(("%s(%s)" % (what, rc["op"]), "line %d (%s): sign(y_i - rhs) = %d, allowed %s" % (
-                        k + 1, rc["op"], sg, sorted(g[k]))))
+                        k + 1, rc["op"], tup[0], sorted(t[0] for t in ts))))
+                else:
+                    gops = ",".join(sorted(recs[k]["op"] for k in ls))      # class key independent of the line order
+                    same = "same-rhs-value" if len(set(r[k] for k in ls)) == 1 else "different-rhs-values"
+                    what = ("not-satisfied(%s)" % ",".join(recs[k]["op"] for k in failing)) if failing else "feasible-input-moved"
+                    problems.append(("same-variable[%s]:%s:%s" % (gops, same, what),
+                                     "lines %s on one left-hand variable (%s): signs(y_i - rhs) = %s, allowed %s" % (
+                                         [k + 1 for k in ls], gops, list(tup), sorted(ts))))
             if lost:
                 problems.append(("step-breaks-earlier-line", "applying the solvers one by one: lines %s held and were broken by a later step" % lost))
             if not stepwise_same:
@@ -296,8 +343,16 @@ def explore(ck, a, runs, corrupt=False, only=None, stride=1):
         "(on the integer lattice a feasible input is at distance >= 1 >> tolerance)",
         "rendering of relation records as text (harness/linrel_common.py) is a documented bijection guarded by evaluating the "
         "rendered right-hand side against TLC's value; default locals tol = rel = 1e-15",
-        "systems: distinct left-hand variables none of which occurs in a right-hand side (the premise of C13); join=None, "
-        "default coupler"]
+        "systems: no left-hand variable occurs in a right-hand side (the premise of C13); runs single/pair/triple: distinct "
+        "left-hand variables; runs grp2/grp3/grpmix: two or three lines on the same left-hand variable (LinRelGrp.tla), judged "
+        "jointly per variable by the tuple of signs (y_i - rhs_k); join=None, default coupler",
+        "same-variable runs: inputs and right-hand values on the even integers so that every sign pattern a real output can "
+        "show is shown by an integer candidate of the spec (EvenLattice, GrpComplete checked by TLC); a system that is "
+        "contradictory at the input point (TLC: GrpResult empty, e.g. 'x >= 2, x <= 0', 'x = f, x != f', 'x = x1, x != 2' at "
+        "x1 = 2) is outside the premise: counted as a trivial case, not executed, never a violation",
+        "replayed pipeline: generate_constraint(generate_solvers(text)) on the isolated-form text directly; simplify() is not in "
+        "the path (its merge() turns 'A >= c, A <= c' into 'A = c' and returns None for 'A > c, A < c'; pairs of a bound and "
+        "'!=' pass through it unchanged, so they reach constraints_parser as replayed here)"]
 
 
 # ------------------------------------------------------------------------------------------------
@@ -311,7 +366,7 @@ def selftest(a, runs):
     ck = new_check(a)
     ck.outdir = "/dev/shm/verif_selftest_C13"
     with contextlib.redirect_stdout(io.StringIO()):
-        explore(ck, a, runs, only=["single", "pair", "box"], stride=3)
+        explore(ck, a, runs, only=["single", "pair", "box"] + ["grp2", "grp3", "grpmix"], stride=3)
     BASELINE_KEYS = set(ck.viol_keys)
     orig_cp, orig_rv, orig_tol, orig_ib, orig_gc = ms.constraints_parser, ms.replace_variables, mm.tolerance, mc.impose_bounds, ms.generate_constraint
 
@@ -352,6 +407,37 @@ def selftest(a, runs):
     def m_neq_noop():
         ms.constraints_parser = wrap_cp(lambda e: e.replace("* 1.1)", "* 0.0)"))
 
+    # --- several relations on the same left-hand variable (LinRelGrp) ---
+    def m_eta_le_dropped():
+        # the seeded slip: '<=' meeting '!=' on the same variable gets no eta term (lands on the forbidden bound)
+        ms.constraints_parser = wrap_cp(lambda e: e.replace("* any(equal(", "* 0 * any(equal(") if "= min(" in e else e)
+
+    def m_eta_ge_sign():
+        # '>=' meeting '!=': eta subtracted instead of added (ends below the bound)
+        ms.constraints_parser = wrap_cp(lambda e: e.replace(" + (_tol(", " - (_tol(") if "= max(" in e else e)
+
+    def m_neq_dropped_with_bound():
+        # the '!=' line is not compiled when the same variable also has a '<', '<=', '>', '>=' line
+        def constraints_parser(constraints, variables='x', nvars=None):
+            out = orig_cp(constraints, variables=variables, nvars=nvars)
+            lhs = lambda e: e.split("=", 1)[0].strip()
+            bounded = set(lhs(e) for e in out if "= min(" in e or "= max(" in e)
+            return tuple(e for e in out if not (" + equal(" in e and lhs(e) in bounded))
+        ms.constraints_parser = constraints_parser
+
+    def m_eta_textual():
+        # eta only when the bound and the forbidden value are the same TEXT (not the same value at the point)
+        def fix(e):
+            for fn, sg in (("= min(", " - (_tol("), ("= max(", " + (_tol(")):
+                if fn in e and sg in e:
+                    rhs = e.split(fn, 1)[1].split(sg, 1)[0]
+                    head = "any(equal(%s,[" % rhs
+                    if head in e:
+                        neqs = e.split(head, 1)[1].split("]))", 1)[0]
+                        return e.replace(head + neqs + "]))", str(rhs in neqs.split(",")))
+            return e
+        ms.constraints_parser = wrap_cp(fix)
+
     def m_second_coord():
         def generate_constraint(conditions, ctype=None, join=None, **kwds):
             cf = orig_gc(conditions, ctype, join, **kwds)
@@ -375,6 +461,7 @@ def selftest(a, runs):
         mc.boundsconstrain = boundsconstrain
 
     orig_bc = mc.boundsconstrain
+    GRP = ["grp2", "grp3", "grpmix"]
     mutants = [("constraints_parser: max/min swapped", m_minmax, None),
                ("constraints_parser: tolerance sign flipped for < and >", m_tolsign, None),
                ("math.tolerance returns 0 (strict comparators land on the boundary)", m_tolzero, None),
@@ -383,6 +470,11 @@ def selftest(a, runs):
                ("inequalities always assign the bound (feasible input moved)", m_always_assign, None),
                ("'!=' leaves an equal input where it is", m_neq_noop, None),
                ("a move also changes another coordinate", m_second_coord, None),
+               ("'<=' meeting '!=' on the same variable gets no eta (seeded slip C13a)", m_eta_le_dropped, GRP),
+               ("'>=' meeting '!=' on the same variable: eta sign flipped", m_eta_ge_sign, GRP),
+               ("'!=' line dropped when the variable also has a bound", m_neq_dropped_with_bound, GRP),
+               ("eta only when bound and forbidden value are textually identical", m_eta_textual, GRP),
+               ("corrupted expectation from TLC (same-variable groups)", lambda: None, "corrupt-grp"),
                ("boundsconstrain clips to the far bound", m_bounds_far, ["box"]),
                ("corrupted expectation from TLC", lambda: None, "corrupt")]
     missed = 0
@@ -391,6 +483,11 @@ def selftest(a, runs):
     okneg = rneg.violated == "DependentAlsoHold"
     print("SELFTEST spec negative control (lines that feed one another: TLC must refute 'all lines hold'): %s" % ("caught" if okneg else "MISSED"))
     missed += 0 if okneg else 1
+    rneg = run_tlc("sym/MC_LinRelGrp", cfg="MC_LinRelGrp_neg.cfg", workers=1)
+    okneg = rneg.violated == "DependentAlsoHold"
+    print("SELFTEST spec negative control (line-by-line semantics on 'x <= 2, x != 2': TLC must refute 'all lines hold', "
+          "so the joint group semantics of LinRelGrp is needed): %s" % ("caught" if okneg else "MISSED"))
+    missed += 0 if okneg else 1
     for nm, mut, mode in mutants:
         mut()
         ck = new_check(a)
@@ -398,7 +495,8 @@ def selftest(a, runs):
         buf = io.StringIO()
         with contextlib.redirect_stdout(buf):
             try:
-                explore(ck, a, runs, corrupt=(mode == "corrupt"), only=(mode if isinstance(mode, list) else ["single", "pair", "box"]), stride=3)
+                explore(ck, a, runs, corrupt=(mode in ("corrupt", "corrupt-grp")),
+                        only=(mode if isinstance(mode, list) else GRP if mode == "corrupt-grp" else ["single", "pair", "box"]), stride=3)
             except Exception as ex:
                 print("mutant raised", repr(ex))
                 ck.violations += 1
@@ -436,9 +534,16 @@ def replay_artefact(path):
         spec_pos = d["lhs_positions"]
         may = set(spec_pos[k] for k in range(len(spec_pos)) if not e["feasible"][k])
         ok = all(y[j] == x[j] or j in may for j in range(len(x)))
-        for p, r, al in zip(spec_pos, e["rhs"], e["allowed_signs"]):
-            ok = ok and sgn(y[p] - r * S) in al
-        print("%r (variables=%r): %r -> %r; rhs %r, allowed signs of y_i - rhs %r" % (d["text"], d["variables"], x, y, e["rhs"], e["allowed_signs"]))
+        if "groups" in e:
+            for gr in e["groups"]:
+                tup = [sgn(y[spec_pos[k - 1]] - e["rhs"][k - 1] * S) for k in gr["lines"]]
+                ok = ok and tup in [list(t) for t in gr["allowed_sign_tuples"]]
+            allowed = [(gr["lines"], gr["allowed_sign_tuples"]) for gr in e["groups"]]
+        else:                                       # artefacts written before the same-variable groups existed
+            for p, r, al in zip(spec_pos, e["rhs"], e["allowed_signs"]):
+                ok = ok and sgn(y[p] - r * S) in al
+            allowed = e["allowed_signs"]
+        print("%r (variables=%r): %r -> %r; rhs %r, allowed signs of y_i - rhs (per group of lines) %r" % (d["text"], d["variables"], x, y, e["rhs"], allowed))
     print("replay: %s" % ("property holds on this case now" if ok else "VIOLATION reproduced"))
     return 0 if ok else 1
 
